@@ -18,9 +18,58 @@ UNITS = {
     'crc': {'rlimit': 50, 'timeout': 120},
     'cw': {'rlimit': 50, 'timeout': 120},
     'open': {'rlimit': 50, 'timeout': 120},
+    'bytesio': {'rlimit': 50, 'timeout': 120},
+    'builder': {'rlimit': 50, 'timeout': 240},
 }
 
 PROPS = {
+    'C06': {
+        'units': ['builder'],
+        'kani': [],
+        'own': {'builder': r'Builder::(check_last_key|insert|add|insert_output)$'},
+        'level_text': 'Proof: Builder::check_last_key is verified on its real body against the full ordering contract (which answer, '
+                      'both error payloads, the whole struct unchanged on Err, only `last` changed on Ok); insert/add are verified to run '
+                      'it first and to leave the builder untouched when it rejects, and otherwise to extend the denotation of the builder '
+                      'by exactly the accepted (key, value).',
+        'level_note': 'Slice order on [u8] is an assumed std contract (lexicographic). from_iter/extend_iter/extend_stream are loops over '
+                      'generic iterators outside the verifier dialect: not decided (each body is `for .. { self.insert(..)? }`).',
+        'explanation': 'C06 clauses are postconditions of check_last_key / insert / add in unit builder.',
+        'assumptions': ['iterator front ends (from_iter, extend_iter, extend_stream) not decided by a verifier'],
+    },
+    'C07': {
+        'units': ['cw', 'bytesio', 'builder'],
+        'kani': [],
+        'level_text': 'Proof per function: CountingWriter::write re-establishes count == bytes accepted and checksum == CRC of the bytes '
+                      'accepted for every behaviour the sink contract allows (any accepted prefix, any error); every emitting builder '
+                      'function appends, through write_all, a byte string that is a spec function of builder state and arguments.',
+        'level_note': 'The two-run equality (same inserts, different sinks => same bytes) is argued from the per-function contracts, not '
+                      'mechanised (2-safety). std write_all default body trusted to loop on write. Counter overflow assumed away (2^64 bytes).',
+        'explanation': 'Sink model = external trait specification on std::io::Write (inc/write_spec.rs).',
+        'assumptions': [],
+    },
+    'C08': {
+        'units': ['crc', 'cw', 'open', 'bytesio', 'builder'],
+        'kani': [],
+        'own': {'builder': r'Builder::(into_inner|new_type|new)$', 'bytesio': r'io_write_u32_le|write_u32_le', 'open': r'verify|as_bytes|as_ref'},
+        'level_text': 'Proof: crc32c_slice16 equals the bitwise CRC-32C fold for every length and chunking (table facts assumed, see note); '
+                      'into_inner writes masked_crc of everything before it as the last 4 bytes; verify() returns Ok iff the stored word '
+                      'equals that value; a spec-level theorem shows a single altered byte always changes one side of that equation.',
+        'level_note': 'Six facts about the generated CRC tables are assumed in unit crc and are to be discharged by Kani harnesses on the real '
+                      'tables (K-tables). Bursts of up to 4 bytes are not decided.',
+        'explanation': '',
+        'assumptions': [],
+    },
+    'C11': {
+        'units': ['cw', 'bytesio', 'builder'],
+        'kani': [],
+        'own': {'builder': r'Builder::(into_inner|new_type|new|compile|compile_from|insert_output|insert|add)$'},
+        'level_text': 'Proof: every writing function is verified against the sink model: it reports Ok only if every byte of its output '
+                      'was accepted (sink\' == sink + expected bytes) and cannot panic; a failing write/flush propagates through `?`.',
+        'level_note': 'The error *variant* (Error::Io) follows from impl From<io::Error> (verified) and the definition of `?` (Verus only '
+                      'knows `is Err` for a converting `?`). "Flushed after the last write" is not expressed by the sink model.',
+        'explanation': '',
+        'assumptions': [],
+    },
     'C10': {
         'units': ['open'],
         'kani': [],
